@@ -1,7 +1,8 @@
 package quic
 
 //vx:pkg github.com/refraction-networking/uquic
-//vx:entry Harness_C01_dgram
+//vx:entry Harness_C01_dgram Harness_C01_dgram_receive
+//vx:reach Harness_C01_dgram_receive C01.dgr.delivered C01.dgr.scribbled C01.dgr.closed
 //vx:param all maxdepth=3000
 //vx:reach Harness_C01_dgram C01.dgram.packed C01.dgram.with-framer-data C01.dgram.with-retransmission C01.dgram.with-ack C01.dgram.discarded C01.dgram.second-packet
 
@@ -176,4 +177,31 @@ func Harness_C01_dgram() {
 		_, isDgram := f.(*wire.DatagramFrame)
 		vx_assert("C01.dgram.never-queued-for-retransmission", !isDgram)
 	}
+}
+
+// The receiving half: DATAGRAM frames handed to the real datagramQueue (the packet buffer they point into is
+// reused at once), then read by the application: each datagram is delivered unmodified, once, in arrival
+// order; after the queue is closed and drained Receive reports the close error instead of inventing data.
+func Harness_C01_dgram_receive() {
+	dq := newDatagramQueue(func() {}, utils.DefaultLogger)
+	k := int(vx_concrete_u64(uint64(vx_range("datagrams", 1, 3))))
+	var want [3]string
+	for i := 0; i < k; i++ {
+		n := int(vx_concrete_u64(uint64([3]int{1, 0, 9}[vx_choice("len", 3)])))
+		buf := vx_bytesN("payload", n)
+		want[i] = string(buf)
+		dq.HandleDatagramFrame(&wire.DatagramFrame{DataLenPresent: true, Data: buf})
+		vx_scribble(buf) // the packet buffer is recycled
+		vx_reach("C01.dgr.scribbled")
+	}
+	for i := 0; i < k; i++ {
+		got, err := dq.Receive(context.Background())
+		vx_assert("C01.dgr.receive-ok", err == nil)
+		vx_assert("C01.dgr.unmodified-in-order-once", string(got) == want[i])
+		vx_reach("C01.dgr.delivered")
+	}
+	dq.CloseWithError(errNothingToPack)
+	_, err := dq.Receive(context.Background())
+	vx_assert("C01.dgr.nothing-after-the-last", err == errNothingToPack)
+	vx_reach("C01.dgr.closed")
 }
